@@ -302,7 +302,8 @@ def c08(run):
 
 @register("C14")
 def c14(run):
-    family(run, ["C14_"], faults=True, crash=False, variants={"parallel": 1.0, "parscen": 300 if run.tier == "quick" else 3000,
+    family(run, ["C14_"], faults=True, crash=False, variants={"nowait": 0.5 if run.tier == "quick" else 1.0,
+                                                               "parallel": 1.0, "parscen": 300 if run.tier == "quick" else 3000,
                                                                "sameobj": 0.1 if run.tier == "quick" else 0.5})
 
 
